@@ -166,7 +166,7 @@ impl Mappable for ClassFile {
 
 			record_components: Vec::new(), // TODO (takes in self.name as well)
 
-			attributes: Vec::new(), // TODO
+			attributes: self.attributes,
 		})
 	}
 }
@@ -230,7 +230,7 @@ impl MappableWithClassName for Field {
 			runtime_visible_type_annotations: self.runtime_visible_type_annotations.remap(remapper)?,
 			runtime_invisible_type_annotations: self.runtime_invisible_type_annotations.remap(remapper)?,
 
-			attributes: Vec::new(), // TODO
+			attributes: self.attributes,
 		})
 	}
 }
@@ -258,7 +258,7 @@ impl MappableWithClassName for Method {
 			annotation_default: self.annotation_default.remap(remapper)?,
 			method_parameters: self.method_parameters.remap(remapper)?,
 
-			attributes: Vec::new(), // TODO:
+			attributes: self.attributes,
 		})
 	}
 }
@@ -370,7 +370,7 @@ impl MappableWithClassName for Code {
 			runtime_visible_type_annotations: self.runtime_visible_type_annotations.remap(remapper)?,
 			runtime_invisible_type_annotations: self.runtime_invisible_type_annotations.remap(remapper)?,
 
-			attributes: Vec::new(), // TODO:
+			attributes: self.attributes,
 		})
 	}
 }
